@@ -4,6 +4,8 @@ import Driver.Util
    c15 ao <cmd,cmd,…>           = c15 aox plain <cmd,…>
    c15 aox <setup> <cmd,cmd,…>  -> ok <cmd>=<result>:<kinds>,…   sequence on an append-only repository (two snapshots);
                                    setup plain | hc (hot/cold) | dmg | hcdmg (damaged: coarse `refused|ran:<kinds>`)
+   c15 hnd <setup> <cmd,cmd,…>  -> the same line: config changes applied to ONE open handle, the next command run on that handle
+                                   (the table has a single flag: `Props/C15.handle_flag_is_table_flag`)
    c15 dry <damage> <cmd>       -> ok <cmd>=-                     a dry-run flag issues no storage operation at all
    c15 dryt <damage> <cmd>      -> ok <cmd>=- twin=<result>:<kinds of the non-dry twin> -/
 namespace Driver.C15
@@ -42,7 +44,7 @@ def handle : List String → String
     match runSeq {} (seq.splitOn ",") [] with
     | some out => "ok " ++ ",".intercalate out
     | none => "bad-op"
-  | ["aox", setup, seq] =>
+  | ["aox", setup, seq] | ["hnd", setup, seq] =>
     match scenOf setup with
     | none => "bad-op"
     | some s =>
